@@ -204,9 +204,11 @@ def observe_module(module, seed, n_inputs=3, with_text=False):
                 vm.SetGlobal(g, copy.deepcopy(gl[g]))
             _counter["n"] = 0
             _counter["limit"] = STEP_BUDGET
-            # the same Python stack headroom whatever process (and call depth) this runs in
+            # the same Python stack headroom whatever call depth this runs at (harness worker and
+            # reader child sit at different depths); the process's own limit - which the product may
+            # have changed - still decides how much that is
             old_limit = sys.getrecursionlimit()
-            sys.setrecursionlimit(_depth() + 960)
+            sys.setrecursionlimit(_depth() + max(old_limit - 40, 100))
             cut = False
             try:
                 r = vm.Invoke(fname, **copy.deepcopy(args))
